@@ -221,6 +221,16 @@ def classify(res, ctx, what, inp, impl_obs, model_obs, guards, escapes, bad):
 
 
 def run_sequences(ctx, res, cases, provider):
+    """in chunks, so that the thorough tier (all sequences of length 3) stays within memory"""
+    impl = []
+    for i in range(0, len(cases), 20000):
+        part = run_sequences_chunk(ctx, res, cases[i:i + 20000], provider)
+        if len(impl) < 40000:
+            impl += part
+    return impl
+
+
+def run_sequences_chunk(ctx, res, cases, provider):
     import icalendar
     S.use_provider(provider)
     M = ctx.model
